@@ -8,7 +8,7 @@ import nauyaca.server.middleware as mw
 from nauyaca.server.config import ServerConfig
 from nauyaca.server.middleware import AccessControl, AccessControlConfig
 
-from vf import HarnessError, Ob, V, internal, pick
+from vf import HarnessError, Ob, V, internal, pick, rebind, unbind
 from vf.capture import capture, inner_protocol
 from vf.smt import decide
 from vf.stubs import drive
@@ -59,6 +59,13 @@ class SymAddr:
         raise HarnessError("SymAddr does not model int()")
 
 
+class _unmodelled:
+    """stands for the ipaddress classes (usable in isinstance / annotations, not constructible)"""
+
+    def __new__(cls, *a, **k):
+        raise HarnessError("only ip_network / ip_address are modelled by the interval stub")
+
+
 def logic(nd: int, d1v: int, d1lo: int, d1hi: int, d2v: int, d2lo: int, d2hi: int,
           na: int, a1v: int, a1lo: int, a1hi: int, a2v: int, a2lo: int, a2hi: int,
           pv: int, pval: int, malformed: bool, default_allow: bool) -> bool:
@@ -83,16 +90,16 @@ def logic(nd: int, d1v: int, d1lo: int, d1hi: int, d2v: int, d2lo: int, d2hi: in
         if malformed:
             raise ValueError("does not appear to be an IPv4 or IPv6 address")
         return SymAddr(pv, pval)
-    mw.ip_network = fake_ip_network
-    mw.ip_address = fake_ip_address
+    undo = rebind(mw, ipaddress, {"ip_network": fake_ip_network, "ip_address": fake_ip_address,
+                                  "IPv4Network": _unmodelled, "IPv6Network": _unmodelled, "IPv4Address": _unmodelled,
+                                  "IPv6Address": _unmodelled, "ip_interface": _unmodelled})
     try:
         # the real constructor runs (whatever it precomputes), the list entries are keys of ``table``
         ac = AccessControl(AccessControlConfig(allow_list=["a0", "a1"][:na] or None, deny_list=["d0", "d1"][:nd] or None,
                                                default_allow=default_allow))
         (ok, resp), exc = drive(ac.process_request("gemini://h/", "peer-address-text"))
     finally:
-        mw.ip_address = ipaddress.ip_address
-        mw.ip_network = ipaddress.ip_network
+        unbind(undo)
     if isinstance(exc, HarnessError):
         raise exc
     if exc is not None:
@@ -252,7 +259,7 @@ def text_boundaries():
                 for ipi in cands:
                     inside = (ipi >> (w - p)) == (base >> (w - p)) if p else True
                     want = inside if mode == "allow" else not inside
-                    got = ac._is_allowed(str(mk_addr(ipi)))
+                    got = drive(ac.process_request("gemini://h/", str(mk_addr(ipi))))[0][0]
                     n += 1
                     if got != want:
                         bad.append((cidr, mode, str(mk_addr(ipi)), got, want))
@@ -262,7 +269,7 @@ def text_boundaries():
                     ov = ipi if w == 32 else ipi & 0xFFFFFFFF
                     for val in ({ov, (0x20010DB8 << 96) | ov} if w == 32 else {ov}):
                         want = False if mode == "allow" else True
-                        got = ac._is_allowed(str(other(val)))
+                        got = drive(ac.process_request("gemini://h/", str(other(val))))[0][0]
                         n += 1
                         if got != want:
                             bad.append((cidr, mode, str(other(val)), got, want))
